@@ -278,8 +278,8 @@ pub const C06: ScenDef = ScenDef {
         steps: (2, 18),
         tx: (400, 2000),
         w_pub: [1, 8, 10],
-        w_sub: 0,
-        w_unsub: 0,
+        w_sub: 2,
+        w_unsub: 2,
         w_ack: 10,
         w_deliver: 0,
         w_redeliver: 0,
@@ -309,6 +309,8 @@ pub const C11: ScenDef = ScenDef {
         // keep-alive timeouts are one of the listed ways to die: unanswered PINGREQ + 5 s
         keepalive: vec![0, 1, 3, 20],
         w_advance: 5,
+        // invalid inbound packets are another listed way to die
+        w_raw: 4,
         ..Profile::default()
     },
     nontrivial: |s, _| s.dead_tail_ops > 0,
